@@ -31,6 +31,7 @@ GEOMS = {
     "g4_256_4_2": (4, 256, 4, 2), "g1_16_4_1": (1, 16, 4, 1), "g2_128_4_2": (2, 128, 4, 2), "g1_4_1_1": (1, 4, 1, 1),
     "g1_2_2_1": (1, 2, 2, 1), "g1_8_3_2": (1, 8, 3, 2), "g1_64_3_1": (1, 64, 3, 1), "g2_2_1_4": (2, 2, 1, 4),
     "g2_16_4_4": (2, 16, 4, 4), "g4_2_1_1": (4, 2, 1, 1), "g1_128_2_1": (1, 128, 2, 1), "g1_6_4_2": (1, 6, 4, 2),
+    "g2_32_3_1": (2, 32, 3, 1),  # string length type narrower than the slot id type
 }
 for _k, _v in GEOMS.items():
     CONFIGS[_k] = geom(*_v)
@@ -319,3 +320,18 @@ for _id in ("C01", "C03", "C04", "C05", "C10", "C11", "C15"):
     PROPS[_id]["thorough"]["fuzz_s"] = 300
 PROPS["C04"]["fuzz_max_len"] = 2048
 PROPS["C05"]["fuzz_max_len"] = 1024
+
+# quick budgets re-measured on 16 cores: every quick tier spends >= ~15 s generating cases
+PROPS["C05"]["quick"].update({"cases": 10000, "floor_evaluations": 15000, "floor_nontrivial": 100000})
+PROPS["C11"]["quick"].update({"cases": 1500000, "floor_evaluations": 1000000, "floor_nontrivial": 500000})
+PROPS["C12"]["quick"].update({"cases": 10000000, "params": {"float_stride": 256}, "floor_evaluations": 20000000, "floor_nontrivial": 5000000})
+PROPS["C13"]["quick"].update({"cases": 6000000, "params": {"stride": 251}, "floor_evaluations": 20000000, "floor_nontrivial": 5000000})
+PROPS["C15"]["quick"].update({"cases": 1500000, "floor_evaluations": 1000000, "floor_nontrivial": 200000})
+PROPS["C16"]["quick"].update({"cases": 600000, "floor_evaluations": 1000000, "floor_nontrivial": 150000})
+PROPS["C17"]["quick"].update({"cases": 2000000, "floor_evaluations": 3000000, "floor_nontrivial": 2000000})
+PROPS["C18"]["quick"].update({"cases": 600000, "floor_evaluations": 500000, "floor_nontrivial": 300000})
+PROPS["C20"]["quick"].update({"cases": 500, "floor_evaluations": 900, "floor_nontrivial": 300})
+
+PROPS["C05"]["quick"].update({"cases": 5000, "floor_evaluations": 8000, "floor_nontrivial": 50000})
+PROPS["C11"]["quick"].update({"cases": 600000, "floor_evaluations": 500000, "floor_nontrivial": 200000})
+PROPS["C12"]["quick"].update({"cases": 4000000, "params": {"float_stride": 512}, "floor_evaluations": 8000000, "floor_nontrivial": 2000000})
